@@ -138,6 +138,7 @@ fn main() {
             let also = std::env::var("PV_ALSO_BIN").ok().filter(|s| !s.is_empty() && args.part_out.is_none());
             let id = a[2].as_str();
             let rc = dispatch!(id, do_run, &args, also);
+            pvharness::dbx::remove_scratch();
             std::process::exit(rc);
         }
         "crash-child" => {
